@@ -277,6 +277,34 @@ CLAIMED["C18"] = dict(
 )
 NOT_YET = {}
 
+# what was added to the checks after the first version (see DESIGN.md section 11)
+EXTRA = {
+    "C01": "Also: a table of numeric literals and a table of every numeric builtin and operator on a grid of special values "
+           "(ties, signed zeros, denormals, infinities, NaN) through dsp's inputs, compared bit for bit.",
+    "C02": "A further exhaustive job generates lets that bind a name of an enclosing scope again (lexical scope of nested blocks).",
+    "C03": "A table of branch constructs outside Lang (numeric match with literal arms and a default arm, every arm stateless or "
+           "stateful, in dsp and in a stateful function, every arm taken at run time) runs under the same contract.",
+    "C04": "TLC also enumerates sequences over three phrase lexicons (whole declarations as classes: modules re-exporting from "
+           "each other, type aliases, functions and globals referring to each other). A panic is identified by its call site once "
+           "its text is not pinned. The harness runner has a progress watchdog (a hang costs one request, not the batch).",
+    "C05": "Callees include self cells of one word, of a flat pair and of a nested tuple (one cell of three words).",
+    "C07": "Edits include nesting a voice one call deeper and back.",
+    "C09": "The form table includes sibling and nested tuple patterns with placeholders.",
+    "C10": "A table of templates outside Lang (letrec beside / around the hole, binders in nested blocks, if arms, tuples) x four "
+           "use sites is run with the binder named t and named u and validated by Lockstep.tla.",
+    "C12": "Boundedness is also asked, on both runtimes, of a table of closure constructs that are steady on the pinned tree "
+           "(lambdas applied on the spot, local letrec, pipes, tasks; in unit-returning and value-returning functions).",
+    "C13": "Three sub-lexicons (numbers and projection chains, comments and strings, operators) are explored deeper than the full alphabet.",
+    "C14": "The form table includes comments at the start of a line before braces and commas.",
+    "C16": "Transformations also include alpha-renaming of one rebinding binder (unshadow) and removing all indentation (flushleft).",
+    "C17": "Positions include a global initialiser directly after a module; forms include a member name used without any import.",
+    "C18": "Also: every parameter list of up to 2 (thorough: 3) parameters over {scalar, tuple, record} x direct call / call "
+           "through a function handle / closure call.",
+}
+for _pid, _t in EXTRA.items():
+    if _pid in CLAIMED:
+        CLAIMED[_pid]["text"] = CLAIMED[_pid]["text"] + " " + _t
+
 checks = []
 na = []
 for p in props:
